@@ -33,8 +33,19 @@ func LabelProps(r *rand.Rand, label string) gts.Props {
 	case 2:
 		p.Add("pseudo", "")
 	}
+	if r.Intn(3) == 0 {
+		// a qualifier of the INSDC vocabulary that an operation might be
+		// tempted to treat specially (re-phase, re-orient, drop).
+		p.Add(Vocabulary[r.Intn(len(Vocabulary))], VocabValues[r.Intn(len(VocabValues))])
+	}
 	return p
 }
+
+// Vocabulary: qualifier names with meaning attached to orientation, phase,
+// position or content of the feature; VocabValues: values they take.
+var Vocabulary = []string{"direction", "codon_start", "translation", "transl_except", "anticodon", "rpt_unit_range", "replace", "number", "estimated_length", "mol_type", "allele", "tag_peptide", "exception", "map"}
+
+var VocabValues = []string{"left", "right", "RIGHT", "1", "2", "3", "MKVAAL", "(pos:5..7,aa:Met)", "3..9", "genomic DNA", "unknown"}
 
 // RandTable draws n uniquely labelled features over [0,L). prefix keeps host
 // and guest labels apart.
